@@ -127,6 +127,10 @@ func diskScriptChild(args []string) int {
 				res = classifyFileBlock(buf, 0xEE)
 			case "barrier":
 				d.Barrier()
+				// a garbage collection (with finalizers) may happen at any point of a program; make one happen here
+				runtime.GC()
+				time.Sleep(2 * time.Millisecond)
+				runtime.GC()
 			case "close":
 				d.Close()
 			case "size":
@@ -255,6 +259,10 @@ func C11(c *ev.Ctx) {
 	// every errno for a failing resize of a LARGER image (the rotation below walks through faultErrnos)
 	for k := 0; k < len(faultErrnos); k++ {
 		failTable = append(failTable, fdBehaviour{Prior: 12, H: []fdOp{{Op: "open", A: 1 + k%2, Fail: "ftruncate", R: -1}}})
+	}
+	// a failing flush, for every errno (the rotation alone may skip one in a short run)
+	for k := 0; k < len(faultErrnos); k++ {
+		failTable = append(failTable, fdBehaviour{Prior: 99, H: []fdOp{{Op: "open", A: 2, Fail: "none"}, {Op: "write", A: 1, V: 1 + k%3, Fail: "none"}, {Op: "barrier", Fail: "fsync", R: -1}}})
 	}
 	// a block is written and then overwritten with zeros: on the same handle and after reopen it reads as zero
 	for _, prior := range []int{99, 0, 4, 8} {
